@@ -42,6 +42,7 @@ class Engine:
         self.max_depth = max_depth
         self.vars = {}
         self.nonzero = set()
+        self._implied = {}
         self.path_obl = []          # obligations collected on the current path: (label, cond, info)
         self.deadline = None
         self.cut_depth = None
@@ -130,6 +131,19 @@ class Engine:
         r = self.s.check(*[self.z(c) for c in conds])
         self.stats['solver_s'] += time.time() - t
         return r
+
+    def check_fresh(self, conds):
+        """second opinion from a non-incremental solver (full preprocessing + nlsat) on path condition + conds;
+        only an `unsat` answer is used"""
+        self._tick()
+        t = time.time(); self.stats['queries'] += 1
+        s2 = z3.Solver(); s2.set('timeout', self.timeout_ms)
+        for c in self.pc: s2.add(self.z(c))
+        for c in conds: s2.add(self.z(c))
+        r = s2.check()
+        self.stats['solver_s'] += time.time() - t
+        self.stats['fresh_solver_rescues'] = self.stats.get('fresh_solver_rescues', 0) + (1 if r == z3.unsat else 0)
+        return r if r == z3.unsat else z3.unknown
 
     def model(self, extra_vars=()):
         m = self.s.model(); env = {}
@@ -255,6 +269,42 @@ class Engine:
                 raise Prune('infeasible concretize')
             if self.branch(c, tag=v): return ir.Z(int(v))
 
+    # ------------------------------------------------------------ simplification under the path condition
+    def implied(self, c):
+        """True / False if the path condition decides c, else None"""
+        c = ir.truth(c)
+        if not isinstance(c, T): return bool(c)
+        k = c.id
+        if k in self._implied: return self._implied[k]
+        r = None
+        if self.check(ir.lnot(c)) == z3.unsat: r = True
+        elif self.check(c) == z3.unsat: r = False
+        self._implied[k] = r
+        return r
+
+    def simplify(self, t, budget=400):
+        """resolve every ite whose condition the path condition decides (case splits already taken by the code)"""
+        memo = {}
+        left = [budget]
+        def go(x):
+            if not isinstance(x, T): return x
+            if x.id in memo: return memo[x.id]
+            if x.op == 'ite' and left[0] > 0:
+                left[0] -= 1
+                d = self.implied(x.args[0])
+                if d is True: r = go(x.args[1])
+                elif d is False: r = go(x.args[2])
+                else: r = ir.ite(x.args[0], go(x.args[1]), go(x.args[2]))
+            elif x.op in ('add',):
+                r = x.args[0]
+                for a in x.args[1:]: r = ir.add(r, go(a))
+            elif x.op == 'mul': r = ir.mul(go(x.args[0]), go(x.args[1]))
+            elif x.op == 'rdiv': r = ir.div(go(x.args[0]), go(x.args[1]))
+            else: r = x
+            memo[x.id] = r
+            return r
+        return go(t)
+
     # ------------------------------------------------------------ obligations
     def oblige(self, label, cond, info=None):
         """register an assertion for the current path (decided by `discharge` at the end of the path)"""
@@ -284,6 +334,7 @@ class Engine:
             else:
                 neg = [ir.lnot(c)]
                 r = self.check(*neg)
+                if r == z3.unknown: r = self.check_fresh(neg)
             if r == z3.unsat: self.stats['discharged'] += 1
             elif r == z3.sat:
                 self.stats['sat'] += 1
@@ -298,7 +349,7 @@ class Engine:
         while True:
             self._tick()
             self.s.push(); self.pos = 0; self.pc = []; self.nfresh = 0; self.model_env = None
-            self.nonzero = set(); self.path_obl = []
+            self.nonzero = set(); self.path_obl = []; self._implied = {}
             try:
                 r = body()
                 self.stats['paths'] += 1
